@@ -9,7 +9,8 @@
      routee-compass-core/src/util/geo/geo_io_utils.rs   concat_linestrings, (parse_wkt_linestring)
      routee-compass-core/src/util/fs/read_utils.rs      read_raw_file (row-by-row, first error aborts)
      routee-compass/src/plugin/output/default/uuid/{plugin.rs, output_json_extensions.rs}
-         UUIDOutputPlugin::{from_file, process}, get_od_vertex_ids
+         UUIDOutputPlugin::{from_file, process}, get_od_vertex_ids (the identifier file is modelled
+         from its raw text: line splitting as BufRead::lines, no row dropped or trimmed)
      routee-compass/src/plugin/output/default/summary/plugin.rs   SummaryOutputPlugin::process
      routee-compass/src/app/compass/compass_app.rs      apply_output_processing
      routee-compass/src/plugin/output/output_plugin_ops.rs  create_initial_output, package_error
@@ -33,7 +34,7 @@
    A HashMap<VertexId, SearchTreeBranch> is modelled as an association list with distinct keys
    in *some* order (its unspecified iteration order); Proofs/Output.v shows every tree format is
    a multiset that does not depend on that order. *)
-From Coq Require Import List String Bool Arith.
+From Coq Require Import List String Ascii Bool Arith.
 From RC Require Import Base.Res.
 Import ListNotations.
 Open Scope string_scope.
@@ -54,6 +55,38 @@ Fixpoint last_opt {A} (l : list A) : option A :=
   | [a] => Some a
   | _ :: r => last_opt r
   end.
+
+(* ---------- read_utils.rs: read_raw_file = BufRead::lines().enumerate().map(op).collect() ----------
+   BufRead::lines splits the text at every '\n' and removes that '\n' together with one '\r'
+   directly before it; a last line without terminator counts as a line (its '\r', if any, stays);
+   nothing after the final '\n' is not a line.  Blank and whitespace-only lines ARE lines: row i of
+   the file is index i of the table, whatever it contains. *)
+Definition nl : ascii := "010"%char.
+Definition cr : ascii := "013"%char.
+(* the pieces between '\n's, the last one being the unterminated remainder (possibly empty) *)
+Fixpoint segments (s : string) : list string :=
+  match s with
+  | EmptyString => [EmptyString]
+  | String c r =>
+      if Ascii.eqb c nl then EmptyString :: segments r
+      else match segments r with
+           | l :: t => String c l :: t
+           | [] => [String c EmptyString]
+           end
+  end.
+Fixpoint strip_cr (s : string) : string :=
+  match s with
+  | EmptyString => EmptyString
+  | String c EmptyString => if Ascii.eqb c cr then EmptyString else s
+  | String c r => String c (strip_cr r)
+  end.
+Definition read_lines (text : string) : list string :=
+  let segs := segments text in
+  map strip_cr (removelast segs)
+  ++ (match last segs EmptyString with EmptyString => [] | l => [l] end).
+
+(* UUIDOutputPlugin::from_file: read_raw_file(filename, |_idx, row| Ok(row)): every line, verbatim *)
+Definition uuid_from_file (text : string) : res (list string) := Ok (read_lines text).
 
 Inductive format := Wkt | Wkb | Json | GeoJson | EdgeId.
 
